@@ -258,6 +258,7 @@ struct Model {
     i128 pre = 0, trans = 0, post = 0;  // unclamped
     int solutions = 0;      // brute-force count of instants displaying cs
     bool consistent = true; // responsible-change analysis agrees with brute force
+    bool crowded = false;   // another table entry (possibly a no-op) lies within the size of the responsible change
   };
   // civil second (given as seconds of the civil time read as if UTC) -> instants
   CivilAnswer civil_to_instants(i128 csecs) const {
@@ -276,6 +277,13 @@ struct Model {
       const i128 o1 = c.before.utoff, o2 = c.after.utoff;
       if (o2 > o1 && c.t + o1 <= csecs && csecs < c.t + o2) { a.kind = 1; a.trans = c.t; a.pre = csecs - o1; a.post = csecs - o2; ++hits; }
       if (o2 < o1 && c.t + o2 <= csecs && csecs < c.t + o1) { a.kind = 2; a.trans = c.t; a.pre = csecs - o1; a.post = csecs - o2; ++hits; }
+    }
+    if (hits == 1) {
+      for (auto& c : ch) {
+        i128 size = c.after.utoff - c.before.utoff; if (size < 0) size = -size;
+        if (c.t != a.trans) continue;
+        for (auto& e : ch) if (e.t != c.t && e.t >= c.t - size && e.t <= c.t + size) a.crowded = true;
+      }
     }
     if (hits == 0) {
       a.kind = 0;
